@@ -326,12 +326,27 @@ pub const BUSY_QUIESCENT_POLLS: u64 = 4;
 /// Executes one case against the real runner.
 pub fn run_case(case: &CaseSpec) -> RunOutput {
     world::reset(case.plan.clone(), case.world_plan.clone(), case.world_gates);
-    install_sentinel_hook();
-    let hits0 = SENTINEL_HITS.load(Ordering::SeqCst);
-
     let shared = Rc::new(RefCell::new(ParserShared::default()));
     let feats = lazy_parser(case, Rc::clone(&shared));
-    let mut stream = build_stream(case, feats);
+    let stream = build_stream(case, feats);
+    drive(case, shared, stream)
+}
+
+/// The lazy parser stream of a case (for callers that build their own pipeline).
+pub fn parser_for(case: &CaseSpec) -> (LazyParser, Rc<RefCell<ParserShared>>) {
+    let shared = Rc::new(RefCell::new(ParserShared::default()));
+    (lazy_parser(case, Rc::clone(&shared)), shared)
+}
+
+/// Drives any stream of events produced on top of the instrumented World with
+/// the gate scheduler. `world::reset` must have been called by the caller.
+pub fn drive(
+    case: &CaseSpec,
+    shared: Rc<RefCell<ParserShared>>,
+    mut stream: LocalBoxStream<'static, Item>,
+) -> RunOutput {
+    install_sentinel_hook();
+    let hits0 = SENTINEL_HITS.load(Ordering::SeqCst);
 
     let fw = Arc::new(FlagWaker { woken: AtomicBool::new(false), thread: thread::current() });
     let waker = Waker::from(Arc::clone(&fw));
